@@ -1,9 +1,9 @@
 #!/usr/bin/env python3
 """Run the registered checks against every seeded change and record which check/clauses catch it.
 usage: tools/matrix.py [name-prefix ...] [--all-checks] [--redo]
-For each /verif/seeded/<name>: `git -C /repo apply patch.diff`, run `./check <breaks> quick` (thorough if quick misses it),
-`git -C /repo checkout -- .`; writes detected_by into meta.json and regenerates seeded/MATRIX.md.
-/repo must be clean; nothing else may be running checks at the same time (they read /repo)."""
+For each /verif/seeded/<name>: apply patch.diff in a scratch worktree of /repo's HEAD (outside /repo and /verif, removed at
+the end), run `VERIF_REPO=<worktree> ./check <breaks> quick` (thorough if quick misses it), undo; writes detected_by into
+meta.json and regenerates seeded/MATRIX.md.  /repo itself is never touched; evidence/ and replays/ are not written."""
 import glob, json, os, re, subprocess, sys
 
 ROOT = "/verif"
@@ -14,8 +14,11 @@ def sh(cmd, timeout=7200):
     return p.returncode, p.stdout.decode("utf-8", "replace")
 
 
+WT = "/tmp/matrix_wt_%d" % os.getpid()
+
+
 def run_check(pid, tier):
-    rc, out = sh("./check %s %s" % (pid, tier))
+    rc, out = sh("VERIF_REPO=%s ./check %s %s" % (WT, pid, tier))
     m = re.search(r"clause counts: (\{.*\})", out)
     counts = eval(m.group(1)) if m else {}
     mach = [l for l in out.splitlines() if "MACHINERY" in l][:2]
@@ -26,9 +29,10 @@ def main():
     args = [a for a in sys.argv[1:] if not a.startswith("--")]
     allchecks = "--all-checks" in sys.argv
     redo = "--redo" in sys.argv
-    rc, out = sh("git -C /repo status --porcelain")
-    if out.strip():
-        print("refusing: /repo is not clean:\n" + out)
+    sh("git -C /repo worktree remove --force %s" % WT)
+    rc, out = sh("git -C /repo worktree add --detach %s HEAD -q" % WT)
+    if rc != 0:
+        print("cannot create scratch worktree: " + out)
         return 2
     head = sh("git -C /repo rev-parse --short HEAD")[1].strip()
     ids = [json.loads(l)["id"] for l in open(os.path.join(ROOT, "properties.jsonl"))]
@@ -40,7 +44,7 @@ def main():
         meta = json.load(open(mp))
         if meta.get("detected_by") and not redo:
             continue
-        rc, out = sh("git -C /repo apply %s" % os.path.join(d, "patch.diff"))
+        rc, out = sh("git -C %s apply %s" % (WT, os.path.join(d, "patch.diff")))
         if rc != 0:
             print(name, "PATCH DOES NOT APPLY", out[:200])
             meta["detected_by"] = None
@@ -70,7 +74,9 @@ def main():
             meta["matrix_repo_head"] = head
             json.dump(meta, open(mp, "w"), indent=1)
         finally:
-            sh("git -C /repo checkout -- .")
+            sh("git -C %s checkout -- ." % WT)
+    sh("git -C /repo worktree remove --force %s" % WT)
+    sh("rm -rf /verif/work/mut_*")
     write_md()
     return 0
 
